@@ -26,12 +26,12 @@ RULE = ("sweep: (version, request kind, enqueue status sequence, confirmation be
 ASSUMPTIONS = [
     "the zigpy.util.Requests compatibility shim (dst/compat.py) behaves like the class this bellows was written against",
     "multicast and broadcast return after the enqueue (no confirmation is awaited), by design",
-    "confirmations are emitted only for accepted enqueues (as firmware does), except the explicitly unsolicited ones; every request of a run has its own destination",
+    "confirmations are emitted only for accepted enqueues (as firmware does), except the explicitly unsolicited ones; every request of a run has its own destination, except in the `samedest` series where they share one",
     "command payload schemas inside the NCP model are bellows' own tables; messageSentHandler frames are built with them in the version's field order",
 ]
 PROBES = ["kind.plain", "kind.route", "kind.exttimeout", "kind.ieee", "kind.multicast", "kind.broadcast", "enqueue.busy_then_ok", "enqueue.busy_x3", "enqueue.refused",
           "confirm.success", "confirm.failure", "confirm.never", "confirm.duplicate", "confirm.wrong_tag", "confirm.wrong_dest", "confirm.unsolicited",
-          "confirm.before_response", "cancelled", "overlapping_requests", "timeout_120s", "setup_commands_seen"]
+          "confirm.before_response", "confirm.stale_repeat", "series_same_tsn", "series_distinct_tsn", "cancelled", "overlapping_requests", "timeout_120s", "setup_commands_seen"]
 
 VERSIONS = (4, 8, 9, 13, 14)
 BUSY = ("MAX_MESSAGE_LIMIT_REACHED", "NETWORK_BUSY", "NO_BUFFERS")
@@ -53,15 +53,126 @@ def plan(tier):
     return {
         "sweeps": sweeps,
         "exhaustive": "versions {4,8,9,13,14} x request kind x enqueue status script {OK; busy,OK; busy,busy,OK; busy x3; refused; busy,refused} x confirmation behaviour, one request at a time",
-        "random": [("random", {}, 1)],
-        "runs": 600 if tier == "quick" else None,
+        "random": [("random", {}, 2), ("samedest", {}, 1)],
+        "runs": 900 if tier == "quick" else None,
         "budget_s": 60 if tier == "quick" else 900,
         "batch": 10,
         "sweep_batch": 2,
     }
 
 
+def run_samedest(params, tape, detail=False):
+    """2-4 consecutive unicasts to ONE destination (same or different TSN), each with its own scripted confirmation, while the NCP repeats the
+    confirmation of an earlier request of the series (its tag, its APS frame) before the current request's own confirmation: a stale
+    confirmation must never decide the current call."""
+    V = params["V"] if "V" in params else VERSIONS[tape.draw(len(VERSIONS), "V")]
+    rig = e3app.AppRig(tape, version=V, sched=params.get("sched", True))
+    loop, ncp = rig.loop, rig.ncp
+    ncp.preform()
+    viol, probes, sigs = [], {}, set()
+
+    def probe(n, k=1):
+        probes[n] = probes.get(n, 0) + k
+
+    D = 0x2345
+    n = 2 + tape.draw(3, "n")
+    same_tsn = tape.draw(3, "same_tsn") != 0
+    reqs = []
+    for i in range(n):
+        conf = ("success", "success", "failure", "never")[tape.draw(4, "conf")]
+        cdelay = (0.5, 2.0, 30.0)[tape.draw(3, "cdelay")]
+        stale = []
+        if i > 0 and tape.draw(4, "stale?"):
+            stale = [(tape.draw(i, "stale.of"), ("OK", "OK", "DELIVERY_FAILED")[tape.draw(3, "stale.status")], (0.01, 0.1, 0.3)[tape.draw(3, "stale.delay")])]
+            if tape.draw(3, "stale.twice") == 2:
+                stale.append((tape.draw(i, "stale.of"), "OK", 0.2))
+        reqs.append({"i": i, "conf": conf, "cdelay": cdelay, "stale": stale, "tag": None, "aps": None, "t_acc": None, "out": None, "t0": None, "t_end": None})
+    cur = [None]
+
+    def h_send(req, **kw):
+        r = cur[0]
+        if r is None:
+            return type(ncp).h_sendUnicast(ncp, req, **kw)
+        a = req.args
+        aps = a["aps_frame"] if V >= 14 else a["apsFrame"]
+        tag = int(a["message_tag"] if V >= 14 else a["messageTag"])
+        r["tag"], r["aps"], r["t_acc"] = tag, aps, loop.time()
+        if r["conf"] == "success":
+            ncp._sent_cb(0, D, aps, tag, "OK", b"", r["cdelay"])
+        elif r["conf"] == "failure":
+            ncp._sent_cb(0, D, aps, tag, "DELIVERY_FAILED", b"", r["cdelay"])
+        for (j, status, sdelay) in r["stale"]:
+            e = reqs[j]
+            if e["tag"] is not None:
+                probe("confirm.stale_repeat")
+                r["stale_fired"] = True
+                ncp._sent_cb(0, D, e["aps"], e["tag"], status, b"", sdelay)
+        return (St("OK"), int(aps.sequence))
+
+    ncp.h_sendUnicast = h_send
+
+    async def main():
+        app = await rig.start_app()
+        ncp.auto_confirm = False
+        for r in reqs:
+            cur[0] = r
+            pkt = zt.ZigbeePacket(src=zt.AddrModeAddress(addr_mode=zt.AddrMode.NWK, address=0x0000), src_ep=1, dst_ep=1, tsn=0x55 if same_tsn else (0x55 + r["i"]) & 0xFF,
+                                  profile_id=260, cluster_id=6, data=zt.SerializableBytes(b"series-" + bytes([r["i"]])), radius=0, non_member_radius=3,
+                                  dst=zt.AddrModeAddress(addr_mode=zt.AddrMode.NWK, address=D))
+            r["t0"] = loop.time()
+            try:
+                await app.send_packet(pkt)
+                r["out"] = ("ok", None)
+            except BaseException as e:  # noqa: BLE001
+                r["out"] = ("raised", e)
+            r["t_end"] = loop.time()
+            r["pending_after"] = list(app._pending)
+            await asyncio.sleep((0.0, 0.05, 1.0)[tape.draw(3, "gap")])
+        cur[0] = None
+        await asyncio.sleep(1.0)
+
+    outcome, val = rig.run(main())
+    if outcome != "done":
+        viol.append(("C12.err", "sim-" + outcome, f"v{V}: simulation ended with {outcome}: {val!r}"))
+    tags = [r["tag"] for r in reqs if r["tag"] is not None]
+    for r in reqs:
+        if r["out"] is None or r["t_acc"] is None:
+            continue
+        tag = f"v{V} series request {r['i']} to 0x{D:04X} (tag {r['tag']}, earlier tags {tags[:r['i']]}) own confirmation={r['conf']} after {r['cdelay']}s stale repeats={r['stale']}"
+        kind, e = r["out"]
+        t_own = r["t_acc"] + r["cdelay"]
+        if r["pending_after"]:
+            viol.append(("C12.clean", "entry-left", f"{tag}: pending table holds {r['pending_after']} after the call ended"))
+        if r["conf"] == "success":
+            if kind != "ok":
+                viol.append(("C12.noother", "failed-by-stale-confirmation", f"{tag}: raised {e!r} although its own confirmation reported success"))
+            elif r["t_end"] < t_own - 1e-6:
+                viol.append(("C12.noother", "completed-by-stale-confirmation", f"{tag}: returned at t={r['t_end']:.4f}, before its own confirmation was even emitted (t={t_own:.4f})"))
+        elif r["conf"] == "failure":
+            if kind == "ok":
+                viol.append(("C12.noother", "completed-by-stale-confirmation", f"{tag}: returned normally although its own confirmation reported failure"))
+            elif not isinstance(e, zigpy.exceptions.DeliveryError):
+                viol.append(("C12.err", "wrong-exception", f"{tag}: expected DeliveryError, got {e!r}"))
+            elif r["t_end"] < t_own - 1e-6:
+                viol.append(("C12.noother", "failed-by-stale-confirmation", f"{tag}: raised at t={r['t_end']:.4f}, before its own confirmation was emitted (t={t_own:.4f})"))
+        else:
+            if kind == "ok":
+                viol.append(("C12.noother", "completed-by-stale-confirmation", f"{tag}: returned normally although no confirmation of its own was ever emitted"))
+            elif not isinstance(e, asyncio.TimeoutError):
+                viol.append(("C12.noother", "failed-by-stale-confirmation", f"{tag}: expected TimeoutError (no own confirmation), got {e!r}"))
+        sigs.add(hashlib.blake2b(repr((V, same_tsn, r["conf"], r["cdelay"], r["stale"], kind, type(e).__name__)).encode(), digest_size=8).digest())
+    probe("series_same_tsn" if same_tsn else "series_distinct_tsn")
+    res = {"viol": viol, "faults": {k: v for k, v in probes.items() if k.startswith("confirm.")}, "probes": probes, "vt": loop.time(), "iters": loop.iters, "sigs": sigs,
+           "evals": max(1, len(reqs)), "digest": hashlib.sha256(repr((rig.log[-300:], loop.time(), loop.iters)).encode()).hexdigest()[:16],
+           "sample": {"V": V, "series": [(r["conf"], r["cdelay"], r["stale"], r["out"] and r["out"][0]) for r in reqs]}}
+    if detail:
+        res["trace"] = [repr(e) for e in rig.log[-200:]]
+    return res
+
+
 def run(scenario, params, tape, detail=False):
+    if scenario == "samedest":
+        return run_samedest(params, tape, detail)
     V = params["V"] if "V" in params else VERSIONS[tape.draw(len(VERSIONS), "V")]
     rig = e3app.AppRig(tape, version=V, sched=params.get("sched", True))
     loop, ncp = rig.loop, rig.ncp
